@@ -283,7 +283,7 @@ func runScript(tr *transcript, seed uint64, uidLens []int) error {
 		}
 		confirm := i%3 != 2
 		op += 2
-		run := runKX(ua, ub, a.uid, b.uid, a.uid, hid, klen, confirm, gen.Mix(seed, 0x7200, op), gen.Mix(seed, 0x7200, op+1), noTamper)
+		run := runKX(ua, ub, a.uid, b.uid, a.uid, hid, klen, confirm, confirm, gen.Mix(seed, 0x7200, op), gen.Mix(seed, 0x7200, op+1), noTamper)
 		if run.err != nil {
 			return fmt.Errorf("key exchange %d failed at %s: %v", i, run.errAt, run.err)
 		}
